@@ -18,6 +18,7 @@ type Env struct {
 	old   *Env              // environment for old(...)
 	heaps map[string]string // heap override (for old)
 	kTerm string            // value of $k
+	kOther map[string]string // $kN for enclosing range loops
 }
 
 type cevalErr struct{ msg string }
@@ -132,6 +133,9 @@ func (e *Engine) ceval(x CExpr, env *Env) Value {
 			}
 			return Sc{env.kTerm, SInt}
 		}
+		if t, ok := env.kOther[n.Name]; ok {
+			return Sc{t, SInt}
+		}
 		if n.Name == "nil" {
 			return IfaceV{Nil: "true", Tag: "0"}
 		}
@@ -213,16 +217,16 @@ func (e *Engine) ceval(x CExpr, env *Env) Value {
 			if b.S != SStr {
 				cfail("indexing a %s", b.S)
 			}
-			return Sc{app("str.at", b.T, idx.T), SInt}
+			return Sc{app("gs.at", b.T, idx.T), SInt}
 		case SliceV:
 			es, ok := scalarSort(b.Elem)
 			if !ok {
 				if env.fc == nil || env.st == nil {
 					cfail("contract index into slice of structs needs a program state")
 				}
-				return env.fc.heapLoad(env.st, b.Elem, b.Ref, plus(b.Off, idx.T))
+				return env.fc.heapLoad(env.st, b.Elem, b.Ref, elemIx(b.Off, idx.T))
 			}
-			return Sc{app("select", app("select", e.heapFor(env, es), b.Ref), plus(b.Off, idx.T)), es}
+			return Sc{app("select", app("select", e.heapFor(env, es), b.Ref), elemIx(b.Off, idx.T)), es}
 		case MapV:
 			if b.Global != nil {
 				v, _ := e.tableLookup(env.st, env.fc, b.Global, idx)
@@ -240,14 +244,14 @@ func (e *Engine) ceval(x CExpr, env *Env) Value {
 		if b.S != SStr {
 			cfail("contract slicing supports strings only")
 		}
-		lo, hi := "0", app("str.len", b.T)
+		lo, hi := "0", app("gs.len", b.T)
 		if n.Lo != nil {
 			lo = e.cevalScalar(n.Lo, env).T
 		}
 		if n.Hi != nil {
 			hi = e.cevalScalar(n.Hi, env).T
 		}
-		return Sc{app("str.sub", b.T, lo, hi), SStr}
+		return Sc{app("gs.sub", b.T, lo, hi), SStr}
 	case *CSel:
 		base := e.ceval(n.X, env)
 		sv, ok := base.(StructV)
@@ -319,7 +323,7 @@ func (e *Engine) cevalBinary(n *CBinary, env *Env) Value {
 	switch n.Op {
 	case "+":
 		if a.S == SStr {
-			return Sc{app("str.cat", a.T, b.T), SStr}
+			return Sc{app("gs.cat", a.T, b.T), SStr}
 		}
 		return Sc{app("+", a.T, b.T), a.S}
 	case "-":
@@ -336,7 +340,7 @@ func (e *Engine) cevalBinary(n *CBinary, env *Env) Value {
 	case "==", "!=":
 		var eq string
 		if a.S == SStr {
-			eq = app("str.eq", a.T, b.T)
+			eq = app("gs.eq", a.T, b.T)
 		} else {
 			eq = app("=", a.T, b.T)
 		}
@@ -348,13 +352,13 @@ func (e *Engine) cevalBinary(n *CBinary, env *Env) Value {
 		if a.S == SStr {
 			switch n.Op {
 			case "<":
-				return Sc{app("str.lt", a.T, b.T), SBool}
+				return Sc{app("gs.lt", a.T, b.T), SBool}
 			case "<=":
-				return Sc{not(app("str.lt", b.T, a.T)), SBool}
+				return Sc{not(app("gs.lt", b.T, a.T)), SBool}
 			case ">":
-				return Sc{app("str.lt", b.T, a.T), SBool}
+				return Sc{app("gs.lt", b.T, a.T), SBool}
 			default:
-				return Sc{not(app("str.lt", a.T, b.T)), SBool}
+				return Sc{not(app("gs.lt", a.T, b.T)), SBool}
 			}
 		}
 		return Sc{app(n.Op, a.T, b.T), SBool}
@@ -370,7 +374,7 @@ func (e *Engine) cevalCall(n *CCall, env *Env) Value {
 	case "len":
 		switch v := arg(0).(type) {
 		case Sc:
-			return Sc{app("str.len", v.T), SInt}
+			return Sc{app("gs.len", v.T), SInt}
 		case SliceV:
 			return Sc{v.Len, SInt}
 		}
@@ -386,7 +390,7 @@ func (e *Engine) cevalCall(n *CCall, env *Env) Value {
 		}
 		return e.ceval(n.Args[0], env.old)
 	case "ascii":
-		return Sc{app("str.ascii", sarg(0).T), SBool}
+		return Sc{app("gs.ascii", sarg(0).T), SBool}
 	case "real", "float64":
 		return toReal(sarg(0))
 	case "floor":
@@ -395,11 +399,17 @@ func (e *Engine) cevalCall(n *CCall, env *Env) Value {
 		r := sarg(0).T
 		return Sc{fmt.Sprintf("(ite (>= %s 0.0) (to_int %s) (- (to_int (- %s))))", r, r, r), SInt}
 	case "chr", "string":
+		if sv, ok := arg(0).(SliceV); ok {
+			if env.fc == nil || env.st == nil {
+				cfail("string(slice) needs a program state")
+			}
+			return env.fc.stringOfSlice(env.st, sv)
+		}
 		a := sarg(0)
 		if a.S == SStr {
 			return a
 		}
-		return Sc{app("str.chr", a.T), SStr}
+		return Sc{app("gs.chr", a.T), SStr}
 	case "min":
 		return Sc{app("go.min", sarg(0).T, sarg(1).T), SInt}
 	case "max":
@@ -552,6 +562,16 @@ func (fc *funcCtx) localEnv(st *State, l *Loop) *Env {
 		oldVars[k] = v
 	}
 	env.old = &Env{vars: oldVars, st: st, fc: fc, heaps: st.oldHeaps}
+	// $kN: completed iterations of the enclosing range loop N, seen from inside its body
+	env.kOther = map[string]string{}
+	for _, fr := range st.loops {
+		if fr.L.KCell == nil || fr.L == l {
+			continue
+		}
+		if v, ok := st.cells[fr.L.KCell].(Sc); ok {
+			env.kOther[fmt.Sprintf("$k%d", fr.L.Ordinal)] = plus(v.T, smtInt(int64(fr.L.KOff-1)))
+		}
+	}
 	if l != nil && l.KCell != nil {
 		if v, ok := st.cells[l.KCell].(Sc); ok {
 			if l.KOff == 0 {
